@@ -5,6 +5,7 @@ from pyvc.contracts import Registry, case, loop
 from pyvc.kinds import *  # noqa
 from pyvc.state import SV
 from contracts import storage_model
+from pyvc import lib as _lib
 
 R = Registry()
 R.merge(storage_model.R)
@@ -272,8 +273,235 @@ import optuna.search_space.group_decomposed as _gd  # noqa: E402
 R.classes.update({"_SearchSpaceGroup": _gd._SearchSpaceGroup, "_GroupDecomposedSearchSpace": _gd._GroupDecomposedSearchSpace})
 R.schema("_SearchSpaceGroup", {"_search_spaces": "list[dict[str, BaseDistribution]]"})
 
+
+def _row(eng, st, d):
+    h, _, _ = eng.dnames(d.kind)
+    return eng.harr(st, h)[d.term]
+
+
+def _home_query(st, q, nm):
+    f = uf("home_query", I, S, z3.BoolSort())
+    if not st.ghost.get("home_query_axiom"):
+        st.ghost["home_query_axiom"] = True
+        a, b = z3.Int("hq_q"), z3.String("hq_nm")
+        st.assume(qforall([a, b], f(a, b), patterns=[f(a, b)]), quantified=True)
+    return f(q, nm)
+
+
+@R.specfunc()
+def split_inv(eng, st, groups, nxt, dk, dist, upto, part=None):
+    """Loop invariant of add_distributions after `upto` old groups: next_search_spaces holds, for each processed group
+    G[q], its part inside the new key set (index 2q) and its part outside (index 2q+1); dist_keys holds the new keys not
+    in any processed group."""
+    D0 = _row(eng, st, dist)
+    p = z3.Int("sp_p")
+    nm = z3.String("sp_name")
+    key = SV(KStr, nm)
+    np_ = eng.list_get(st, nxt, p)
+    q = p / 2
+    gq = eng.list_get(st, groups, q)
+    even = (p % 2) == 0
+    has_np, has_gq = eng.dict_has(st, np_, key), eng.dict_has(st, gq, key)
+    l2 = qforall([p, nm], z3.Implies(z3.And(0 <= p, p < 2 * upto.term),
+                                     has_np == z3.And(has_gq, z3.If(even, D0[nm], z3.Not(D0[nm])))), patterns=[has_np])
+    sh, _ = eng.snames(dk.kind)
+    dkrow = eng.harr(st, sh)[dk.term]
+    qq = z3.Int("sp_q")
+    gqq = eng.list_get(st, groups, qq)
+    in_earlier = z3.Exists([qq], z3.And(0 <= qq, qq < upto.term, eng.dict_has(st, gqq, key), _home_query(st, qq, nm)))
+    l3 = qforall([nm], dkrow[nm] == z3.And(D0[nm], z3.Not(in_earlier)), patterns=[dkrow[nm], D0[nm]])
+    ctx = eng.spec_stack[-1]
+    nn = z3.And(np_.term != 0, np_.term >= ctx.pre_nref, np_.term < st.nref)     # allocated by this call, before now
+    l4 = qforall([p], z3.Implies(z3.And(0 <= p, p < 2 * upto.term), nn), patterns=[np_.term])
+    # the same split read from the old group's side (so that a key of an old group finds its new home)
+    q2 = z3.Int("sp_q2")
+    g2 = eng.list_get(st, groups, q2)
+    has_g2 = eng.dict_has(st, g2, key)
+    n_in, n_out = eng.list_get(st, nxt, 2 * q2), eng.list_get(st, nxt, 2 * q2 + 1)
+    # (home_query is identically true: a trigger term that keeps l2 and l2b from feeding each other new index terms forever)
+    l2b = qforall([q2, nm], z3.Implies(z3.And(_home_query(st, q2, nm), 0 <= q2, q2 < upto.term, has_g2),
+                                       z3.And(z3.If(D0[nm], eng.dict_has(st, n_in, key), eng.dict_has(st, n_out, key)),
+                                              _lib.idx_query(st, 2 * q2), _lib.idx_query(st, 2 * q2 + 1))), patterns=[_home_query(st, q2, nm)])
+    l5 = qforall([p, nm], z3.Implies(z3.And(0 <= p, p < 2 * upto.term, has_np), eng.dict_size(st, np_) > 0), patterns=[has_np])
+    parts = {"len": eng.list_len(st, nxt) == 2 * upto.term, "l2": l2, "l3": l3, "l4": l4, "l2b": l2b, "l5": l5}
+    return SV(KBool, parts[part] if part else z3.And(list(parts.values())))
+
+
+for _p in ("len", "l2", "l3", "l4", "l2b", "l5"):
+    def _mk2(_p=_p):
+        def f(eng, st, groups, nxt, dk, dist, upto):
+            return split_inv(eng, st, groups, nxt, dk, dist, upto, _p)
+        return f
+    R.specfuncs["split_" + _p] = _mk2()
+
+
+@R.specfunc()
+def covers(eng, st, groups_new, groups_old, dist, part=None):
+    """Union of the new groups == union of the old groups plus the new key set."""
+    D0 = _row(eng, st, dist)
+    nm = z3.String("cv2_name")
+    key = SV(KStr, nm)
+    j, q = z3.Int("cv2_j"), z3.Int("cv2_q")
+    gj, gq = eng.list_get(st, groups_new, j), eng.list_get(st, groups_old, q)
+    in_new = z3.Exists([j], z3.And(0 <= j, j < eng.list_len(st, groups_new), eng.dict_has(st, gj, key)))
+    in_old = z3.Exists([q], z3.And(0 <= q, q < eng.list_len(st, groups_old), eng.dict_has(st, gq, key)))
+    if part == "sub":
+        return SV(KBool, qforall([j, nm], z3.Implies(z3.And(0 <= j, j < eng.list_len(st, groups_new), eng.dict_has(st, gj, key)), z3.Or(in_old, D0[nm])),
+                                 patterns=[eng.dict_has(st, gj, key)]))
+    if part == "sup_old":
+        return SV(KBool, qforall([q, nm], z3.Implies(z3.And(_home_query(st, q, nm), 0 <= q, q < eng.list_len(st, groups_old), eng.dict_has(st, gq, key)), in_new),
+                                 patterns=[eng.dict_has(st, gq, key)]))
+    if part == "sup_new":
+        return SV(KBool, qforall([nm], z3.Implies(D0[nm], in_new), patterns=[D0[nm]]))
+    return SV(KBool, z3.ForAll([nm], in_new == z3.Or(in_old, D0[nm])))
+
+
+for _p in ("sub", "sup_old", "sup_new"):
+    def _mk3(_p=_p):
+        def f(eng, st, groups_new, groups_old, dist):
+            return covers(eng, st, groups_new, groups_old, dist, _p)
+        return f
+    R.specfuncs["covers_" + _p] = _mk3()
+
+
+@R.specfunc()
+def old_containers_unchanged(eng, st):
+    """Every list/dict/set object allocated before the call keeps its contents (only the field self._search_spaces is
+    re-pointed, to a fresh list)."""
+    ctx = eng.spec_stack[-1]
+    conj = []
+    r = z3.Int("ocu_r")
+    for name, arr in st.heap.items():
+        a0 = ctx.pre_heap.get(name)
+        if a0 is None or z3.eq(a0, arr) or name[:2] not in ("L:", "D:", "S:"):
+            continue
+        conj.append(qforall([r], z3.Implies(z3.And(0 <= r, r < ctx.pre_nref), arr[r] == a0[r]), patterns=[arr[r], a0[r]]))
+    return SV(KBool, z3.And(conj) if conj else z3.BoolVal(True))
+
+
+@R.specfunc()
+def groups_wf(eng, st, groups):
+    """Groups are dict objects (non-None), non-empty and pairwise disjoint."""
+    n = eng.list_len(st, groups)
+    a, b = z3.Int("gw_a"), z3.Int("gw_b")
+    nm = z3.String("gw_name")
+    key = SV(KStr, nm)
+    ga, gb = eng.list_get(st, groups, a), eng.list_get(st, groups, b)
+    return SV(KBool, z3.And(
+        qforall([a], z3.Implies(z3.And(0 <= a, a < n), z3.And(ga.term != 0, eng.dict_size(st, ga) > 0)), patterns=[ga.term]),
+        qforall([a, b, nm], z3.Implies(z3.And(0 <= a, a < b, b < n), z3.Not(z3.And(eng.dict_has(st, ga, key), eng.dict_has(st, gb, key)))),
+                patterns=[z3.MultiPattern(eng.dict_has(st, ga, key), eng.dict_has(st, gb, key))])))
+
+
 R.spec(GD, "_SearchSpaceGroup.add_distributions", props=["C17"],
-       types={"distributions": "dict[str, BaseDistribution]"},
-       cases=[case("ok", ensures=["True"])],
-       loops={0: loop(index="_i", invariant=["0 <= _i"])},
-       modifies=["*"])
+       types={"distributions": "dict[str, BaseDistribution] @ td"},
+       locals={"next_search_spaces": "list[dict[str, BaseDistribution]]", "dist_keys": "set[str]", "keys": "set[str]"},
+       requires=["groups_wf(self._search_spaces)"],
+       cases=[case("ok", ensures=[
+           "covers_sub(self._search_spaces, old(self._search_spaces), distributions)",
+           "covers_sup_old(self._search_spaces, old(self._search_spaces), distributions)",
+           "covers_sup_new(self._search_spaces, old(self._search_spaces), distributions)",
+           "fresh(self._search_spaces)",
+           # the new groups are again non-empty and pairwise disjoint: a partition of the keys seen so far
+           "groups_wf(self._search_spaces)",
+       ])],
+       ensures_all=["old_containers_unchanged()"],
+       loops={0: loop(index="_i", invariant=[
+           "0 <= _i and _i <= len(old(self._search_spaces))", "self._search_spaces is old(self._search_spaces)",
+           "fresh(next_search_spaces) and fresh(dist_keys)",
+           "split_len(old(self._search_spaces), next_search_spaces, dist_keys, distributions, _i)",
+           "split_l2(old(self._search_spaces), next_search_spaces, dist_keys, distributions, _i)",
+           "split_l3(old(self._search_spaces), next_search_spaces, dist_keys, distributions, _i)",
+           "split_l4(old(self._search_spaces), next_search_spaces, dist_keys, distributions, _i)",
+           "split_l2b(old(self._search_spaces), next_search_spaces, dist_keys, distributions, _i)",
+           "split_l5(old(self._search_spaces), next_search_spaces, dist_keys, distributions, _i)",
+           "only_fresh_modified()",
+       ], locals={"next_search_spaces": "list[dict[str, BaseDistribution]]", "dist_keys": "set[str]", "keys": "set[str]"},
+           modifies=["S:*:set<str>", "L:*:list<dict<str,ref:BaseDistribution>>", "D:*:dict<str,ref:BaseDistribution>", "G:is_tuple"])},
+       modifies=["S:*:set<str>", "L:*:list<dict<str,ref:BaseDistribution>>", "D:*:dict<str,ref:BaseDistribution>", "G:is_tuple",
+                 "F:_SearchSpaceGroup._search_spaces"])
+
+
+def deepcopy_group_list(eng, st, v, node=None):
+    """copy.deepcopy(list[dict[str, BaseDistribution]]): a fresh list of fresh, pairwise distinct dicts with the same keys
+    and the same (immutable, shared) distribution objects; nothing allocated before changes."""
+    n = eng.list_len(st, v)
+    old_nref = st.nref
+    out = eng.new_list(st, KList(v.kind.elem, ""), n)
+    new_nref = st.fresh("nref", z3.IntSort())
+    st.assume(new_nref >= st.nref)
+    st.nref = new_nref
+    cp = st.fresh("dcg", z3.ArraySort(z3.IntSort(), z3.IntSort()))
+    inv = st.fresh("dcg_inv", z3.ArraySort(z3.IntSort(), z3.IntSort()))
+    i, r = z3.Int("dcg_i"), z3.Int("dcg_r")
+    _, e_src = eng.lnames(v.kind)
+    src = eng.harr(st, e_src)[v.term]
+    _, e_dst = eng.lnames(out.kind)
+    st.heap[e_dst] = z3.Store(eng.harr(st, e_dst), out.term, cp)
+    inr = z3.And(0 <= i, i < n)
+    names = eng.dnames(v.kind.elem)
+    olds = [eng.harr(st, nm) for nm in names]
+    news = [eng.havoc_harr(st, nm) for nm in names]
+    for o, nw in zip(olds, news):
+        st.assume(qforall([r], z3.Implies(z3.And(0 <= r, r <= old_nref), nw[r] == o[r]), patterns=[nw[r]]), quantified=True)
+    st.assume(qforall([i], z3.Implies(inr, z3.And(cp[i] > old_nref, cp[i] < new_nref, inv[cp[i]] == i,
+                                                  z3.And([nw[cp[i]] == o[src[i]] for o, nw in zip(olds, news)]))), patterns=[cp[i]]), quantified=True)
+    eng.set_is_tuple(st, out, False)
+    return out
+
+
+R.specfuncs["deepcopy_list:dict<str,ref:BaseDistribution>"] = deepcopy_group_list
+
+from contracts import study as _study  # noqa: E402  (abstract storage: BaseStorage.get_all_trials, as_trial)
+R.merge(_study.R)
+R.schema("_GroupDecomposedSearchSpace", {"_search_space": "_SearchSpaceGroup", "_study_id": "int | None", "_include_pruned": "bool"})
+
+
+@R.specfunc()
+def all_covered(eng, st, self_sv, study, group):
+    """Every key of every current trial of interest (COMPLETE, and PRUNED if requested) occurs in some group."""
+    storage = eng.get_field(st, study, "_storage")
+    sid = eng.get_field(st, study, "_study_id")
+    ip = eng.get_field(st, self_sv, "_include_pruned").term
+    groups = eng.get_field(st, group, "_search_spaces")
+    t = z3.Int("ac_t")
+    tv = SV(KRef("FrozenTrial"), t)
+    nm = z3.String("ac_name")
+    key = SV(KStr, nm)
+    j = z3.Int("ac_j")
+    gj = eng.list_get(st, groups, j)
+    s = eng.get_field(st, tv, "state").term
+    has_t = eng.dict_has(st, _dists(eng, st, tv), key)
+    in_groups = z3.Exists([j], z3.And(0 <= j, j < eng.list_len(st, groups), eng.dict_has(st, gj, key)))
+    return SV(KBool, qforall([t, nm], z3.Implies(z3.And(_study._as_trial(storage.term, sid.term, t), _contributes(s, ip), has_t), in_groups),
+                             patterns=[z3.MultiPattern(_study._as_trial(storage.term, sid.term, t), has_t)]))
+
+
+@R.specfunc()
+def covered_upto(eng, st, trials, upto, groups):
+    """Keys of the first `upto` listed trials occur in some group."""
+    i = z3.Int("cu_i")
+    nm = z3.String("cu_name")
+    key = SV(KStr, nm)
+    j = z3.Int("cu_j")
+    t = eng.list_get(st, trials, i)
+    gj = eng.list_get(st, groups, j)
+    has_t = eng.dict_has(st, _dists(eng, st, t), key)
+    in_groups = z3.Exists([j], z3.And(0 <= j, j < eng.list_len(st, groups), eng.dict_has(st, gj, key)))
+    return SV(KBool, qforall([i, nm], z3.Implies(z3.And(0 <= i, i < upto.term, has_t), in_groups), patterns=[has_t]))
+
+
+R.spec(GD, "_GroupDecomposedSearchSpace.calculate", props=["C17"], types={"study": "Study"},
+       requires=["groups_wf(self._search_space._search_spaces)"],
+       cases=[case("other-study", when="self._study_id is not None and self._study_id != study._study_id", raises="ValueError"),
+              case("ok", any_outcome=True, ensures_return=[
+                  "fresh(result) and fresh(result._search_spaces)",
+                  # the returned (copied) groups cover the parameters of every current trial of interest
+                  "all_covered(self, study, result)", "all_covered(self, study, self._search_space)"])],
+       loops={0: loop(index="_i", invariant=[
+           "0 <= _i", "groups_wf(self._search_space._search_spaces)", "self._search_space is old(self._search_space)",
+           "covered_upto(_seq, _i, self._search_space._search_spaces)", "old_containers_unchanged()",
+       ], modifies=["S:*:set<str>", "L:*:list<dict<str,ref:BaseDistribution>>", "D:*:dict<str,ref:BaseDistribution>", "G:is_tuple",
+                    "F:_SearchSpaceGroup._search_spaces"])},
+       modifies=["S:*:set<str>", "L:*", "D:*:dict<str,ref:BaseDistribution>", "G:is_tuple",
+                 "F:_SearchSpaceGroup._search_spaces", "F:_GroupDecomposedSearchSpace._study_id"])
